@@ -2,6 +2,7 @@ package mem2reg
 
 import (
 	"github.com/gogpu/naga/ir"
+	"sort"
 )
 
 // promotionContext bundles the per-function state needed by the
@@ -254,7 +255,7 @@ func rewriteBlock(ctx *promotionContext, blk *[]ir.Statement, candidates map[uin
 // without explicit Init see zero per the WGSL specification).
 func initialValues(ctx *promotionContext, candidates map[uint32]struct{}) map[uint32]ir.ExpressionHandle {
 	out := make(map[uint32]ir.ExpressionHandle, len(candidates))
-	for v := range candidates {
+	for _, v := range sortedVars(candidates) {
 		lv := &ctx.fn.LocalVars[v]
 		if lv.Init != nil {
 			out[v] = *lv.Init
@@ -302,4 +303,17 @@ func rewriteEmitRange(ctx *promotionContext, r ir.Range, candidates map[uint32]s
 		}
 		ctx.fn.Expressions[h].Kind = ir.ExprAlias{Source: cv}
 	}
+}
+
+// sortedVars returns the variable indices of a candidate set in ascending
+// order. Loops that append expressions (zero values, phis) for every candidate
+// must not follow Go's randomised map iteration order, or the numbering of the
+// new expressions - and with it the emitted module - differs from run to run.
+func sortedVars(set map[uint32]struct{}) []uint32 {
+	vars := make([]uint32, 0, len(set))
+	for v := range set {
+		vars = append(vars, v)
+	}
+	sort.Slice(vars, func(i, j int) bool { return vars[i] < vars[j] })
+	return vars
 }
